@@ -410,6 +410,9 @@ use vstd::std_specs::hash::*;"""
             final(%(o)s)@ == old(%(o)s)@,  // @%(p)s.actor.%(v)s.the_other_summary_is_untouched
 """ % dict(l=local, p=prop, v=variant, o=other))
 
+        # derived Debug of the two field-less enums (format!("{:?}", module / state) in the warnings of the arms) does not panic
+        u.raw("""#[verifier::external_body] pub broadcast proof fn axiom_fmt_status_module() ensures #[trigger] vstd::std_specs::fmt::fmt_req_all::<crate::shared_state::agent_status_wrapper::AgentStatusModule>() {}
+#[verifier::external_body] pub broadcast proof fn axiom_fmt_module_state() ensures #[trigger] vstd::std_specs::fmt::fmt_req_all::<crate::proxy_agent_shared::proxy_agent_aggregate_status::ModuleState>() {}""")
         # ---- every OTHER arm of the status actor: sliced for panic-freedom only (C13: a panic in this task ends the ONE task that owns
         # all status state; every later status call then fails). All actor locals are handed over by value (`x_0`, rebound `let mut x`).
         AS_LOCALS = [("%s_state" % m, "ModuleState") for m in AS_MODULES] + [(("%s_status_message" % m).replace("status_status", "status"), "String") for m in AS_MODULES] + \
@@ -435,7 +438,7 @@ use vstd::std_specs::hash::*;"""
             u.slice_fn(asw, FN, gname, lo, hi,
                        ", ".join(["%s_0: %s" % (n, t) for (n, t) in AS_LOCALS] + ["%s: %s" % (f, t) for (f, t) in fields]),
                        contract="\n        requires obeys_key_model::<String>(),   // vstd's HashMap model applies to String keys (as for the two summary arms)\n",
-                       pre_body="broadcast use vstd::std_specs::hash::group_hash_axioms, axiom_to_string_string, axiom_string_ext;\n" + "".join("let mut %s = %s_0;\n" % (n, n) for (n, _t) in AS_LOCALS),
+                       pre_body="broadcast use vstd::std_specs::hash::group_hash_axioms, axiom_to_string_string, axiom_string_ext, axiom_fmt_status_module, axiom_fmt_module_state;\n" + "".join("let mut %s = %s_0;\n" % (n, n) for (n, _t) in AS_LOCALS),
                        what="(actor arm AgentStatusAction::%s, panic-freedom)" % variant)
             u.auto_props[gname] = "C13"
 
